@@ -59,8 +59,14 @@ _cache: dict[str, list[tuple[str, str, str, dict]]] = {}
 
 
 def inject_all() -> list[tuple[str, str, str, dict]]:
-    if "t" in _cache:
-        return _cache["t"]
+    if "t" not in _cache:
+        # every Python file of refurb can influence what main() does with an exception
+        rows = core.cached_json("handlers", ["refurb/**/*.py"], lambda: [list(r) for r in _inject_all()])
+        _cache["t"] = [tuple(r) for r in rows]
+    return _cache["t"]
+
+
+def _inject_all() -> list[tuple[str, str, str, dict]]:
     rows: list[tuple[str, str, str, dict]] = []
     with core.scratch("rv-c03h-") as root:
         (root / "_worker.py").write_text(WORKER)
@@ -83,7 +89,6 @@ def inject_all() -> list[tuple[str, str, str, dict]]:
         jobs = list(enumerate((s, e) for s in STAGES for e in EXCS))
         with ThreadPoolExecutor(16) as ex:
             rows = list(ex.map(one, jobs))
-    _cache["t"] = rows
     return rows
 
 
